@@ -155,6 +155,15 @@ class FieldInit(Contract):
                 {'ndim': 2, 'nvdim': 0, 'value': 'number', 'valid': 'true'}]
         for d in (1, 2, 3) if tier == 'quick' else (1, 2, 3, 4):
             out += [{'ndim': d, 'nvdim': 3, 'value': 'callable', 'valid': 'true'}, {'ndim': d, 'nvdim': 1, 'value': 'callable', 'valid': 'callable'}]
+        # declared storage type (dtype=int): real numbers handed over are truncated into the integer array, integer data are kept;
+        # without the keyword integer data are stored as floating numbers (max(dtype, float64))
+        out += [{'ndim': 2, 'nvdim': 2, 'value': 'array', 'valid': 'array', 'dtype': 'int'},
+                {'ndim': 1, 'nvdim': 3, 'value': 'array', 'valid': 'array', 'dtype': 'int', 'vtype': 'int'},
+                {'ndim': 2, 'nvdim': 3, 'value': 'vector', 'valid': 'true', 'dtype': 'int'},
+                {'ndim': 2, 'nvdim': 1, 'value': 'number', 'valid': 'true', 'dtype': 'int'},
+                {'ndim': 2, 'nvdim': 1, 'value': 'array_n', 'valid': 'array', 'dtype': 'int'},
+                {'ndim': 2, 'nvdim': 2, 'value': 'array', 'valid': 'array', 'vtype': 'int'},
+                {'ndim': 2, 'nvdim': 1, 'value': 'array_n', 'valid': 'array', 'vtype': 'int'}]
         # mesh axes that carry the very names of the default component labels, in another order: the default mapping
         # pairs component j with axis j (by position), never by the spelling of the names
         out += [{'ndim': 3, 'nvdim': 3, 'value': 'array', 'valid': 'array', 'dims': ('z', 'x', 'y')},
@@ -166,10 +175,11 @@ class FieldInit(Contract):
         mesh, assume = sym_mesh(E, d, tf=1e-12, dims=cfg.get('dims'))
         n = [E.pyscalar(x) for x in mesh.attrs['_n'].elems]
         vk = cfg['value']
+        vt = cfg.get('vtype', 'float')
         if vk == 'array':
-            value = E.sym_array('val_A', n + [nv], 'float')
+            value = E.sym_array('val_A', n + [nv], vt)
         elif vk == 'array_n':
-            value = E.sym_array('val_A', n, 'float')
+            value = E.sym_array('val_A', n, vt)
         elif vk == 'array_wrong':
             value = E.sym_array('val_A', n + [nv + 1], 'float')
         elif vk == 'vector':
@@ -186,6 +196,8 @@ class FieldInit(Contract):
             value = 'abc'
         valid = E.sym_array('val_V', n, 'bool') if cfg['valid'] == 'array' else (user_callable(E, 'uservalid', d, 1, 'bool') if cfg['valid'] == 'callable' else True)
         kw = {'nvdim': nv, 'value': value, 'valid': valid, 'unit': 'T'}
+        if cfg.get('dtype'):
+            kw['dtype'] = TypeTag(cfg['dtype'])
         dims = mesh.attrs['_region'].attrs['_dims']
         vd = cfg.get('vdims')
         if vd == 'custom':
@@ -223,7 +235,20 @@ class FieldInit(Contract):
         return [isinstance(st.mesh, Obj) and st.mesh.cls == 'Mesh', st.norm is None,
                 isinstance(st.nvdim, int), st.unit is None or isinstance(st.unit, str),
                 isinstance(st.value, (NDArr, Sym, int, float, tuple, list, Vec, str, Builtin)) or type(st.value).__name__ == 'Fraction',
-                isinstance(st.valid, (NDArr, bool, Builtin))]
+                isinstance(st.valid, (NDArr, bool, Builtin)),
+                st.dtype is None or (isinstance(st.dtype, TypeTag) and st.dtype.name in ('int', 'float', 'bool'))]
+
+    def stored(s, E, st, kind, want):
+        """(storage kind, stored value) of one entry: the declared dtype converts (float -> int truncates towards zero);
+        without a declared dtype integers become floating numbers.  (An n-shaped array for a scalar field passes _as_array twice -
+        update_field_values and the array setter - so it is converted like every other form.)"""
+        own = st.value.dtype if isinstance(st.value, NDArr) else None
+        dt = st.dtype.name if isinstance(st.dtype, TypeTag) else None
+        if dt == 'int':
+            return 'int', E.trunc_int(want)
+        if dt == 'bool':
+            return 'bool', E.asbool(want)
+        return ('complex' if own == 'complex' else 'float'), want
 
     # -- shape classification of the value specification
     def _n(s, E, st):
@@ -333,7 +358,11 @@ class FieldInit(Contract):
             want = E.select_list(el, idx[-1])
         else:
             want = v
-        out.append(('array[idx, c] == value specification at (idx, c)', R(arr.at(E, idx)) == R(want)))
+        skind, swant = s.stored(E, st, kind, want)
+        out.append(('array[idx, c] == value specification at (idx, c)' + (' converted to the declared integer type (truncation)' if skind == 'int' else ''),
+                    R(arr.at(E, idx)) == R(swant)))
+        if kind != 'callable':
+            out.append(('storage type of the array: the declared dtype, else floating', arr.dtype == skind))
         if isinstance(st.valid, Builtin):
             wv = st.valid.f([centre], {})
         else:
@@ -362,6 +391,12 @@ class FieldInit(Contract):
         dt = 'float'
         if isinstance(v, NDArr) and v.dtype == 'complex':
             dt, g0 = 'complex', g
+        if isinstance(st.dtype, TypeTag) and st.dtype.name == 'int':
+            dt, g1 = 'int', g
+            g = lambda idx: E.trunc_int(g1(idx))
+        elif isinstance(st.dtype, TypeTag) and st.dtype.name == 'bool':
+            dt, g2 = 'bool', g
+            g = lambda idx: E.asbool(g2(idx))
         vd = s._vdims(st)
         f.attrs.update({'_mesh': st.mesh, '_nvdim': nv, 'dtype': st.dtype, '_unit': st.unit,
                         '_array': E.fresh_buf(n + [nv], g, dt, 'Field.array'),
